@@ -132,6 +132,27 @@ def gen_module(rng: random.Random, process_dependent: bool = False, special: boo
             return text
         except (SyntaxError, ValueError):
             pass
+    if rng.random() < (0.25 if special else 0.06):
+        # imports inside an indented block next to a multi-line statement that has a less indented
+        # line (text of a triple-quoted string, a closing bracket in column 0), the block going on
+        mods = rng.sample(["os", "sys", "re", "json", "math"], 2)
+        ml = rng.choice([
+            'text = """\nfirst line in column 0\nsecond line\n"""', "data = [\n1,\n2,\n]", 'text = (\n"a"\n"b"\n)', "text = \'\'\'\n  two spaces\nnone\n\'\'\'",
+        ])
+        ml_ind = "\n".join(("    " + l) if i == 0 else l for i, l in enumerate(ml.split("\n")))
+        order = rng.choice([0, 1, 2])
+        body = [f"    import {mods[0]}", ml_ind, f"    import {mods[1]}"]
+        if order == 1:
+            body = [ml_ind, f"    import {mods[0]}", f"    import {mods[1]}"]
+        elif order == 2:
+            body = [f"    import {mods[0]}", f"    import {mods[1]}", ml_ind]
+        name = "text" if "text" in ml else "data"
+        text = "def loader(flag):\n" + "\n".join(body) + f"\n    if flag:\n        return {mods[0]}, {mods[1]}, {name}\n    return None\n\n\nprint(loader(1))\n"
+        try:
+            ast.parse(text)
+            return text
+        except (SyntaxError, ValueError):
+            pass
     if rng.random() < (0.5 if special else 0.12):
         # several different constants, each used equally often and often enough to be abstracted:
         # which one gets which generated name must not depend on set / address order
